@@ -13,6 +13,8 @@ for f in sys.argv[1:]:
     if not r.get("patch_applies"):
         print(sid, "PATCH DOES NOT APPLY"); continue
     m["check_result"] = r.get("check", [])
+    if m.get("obsolete_after"):
+        print(sid, "obsolete (kept as is)"); continue
     m["caught_by_check"] = bool(r.get("caught"))
     if "demo_changed_exit" in r:
         m.setdefault("confirmed", {})["demo_fails_on_changed_tree"] = r["demo_changed_exit"] != 0
